@@ -1209,9 +1209,83 @@ def search(ob, wit=None):
                 if r:
                     break
         return r
+    if "data_types.py" in ob and any(f".{m}/" in ob for m in ("get_metadata", "get_content_type", "get_bytes")):
+        q = ob.split("::")[1].split("/")[0]
+        return check_accessors(q.split(".")[0], q.split(".")[1])
     if "data_types.py" in ob:
         cls = ob.split("::")[1].split(".")[0] if "::" in ob else None
         return check_views(cls if cls and cls.endswith("Content") else None)
+    return None
+
+
+def check_accessors(cls, meth=None):
+    """Observation accessors of an image class (contracts/c14_access.py) on a grid of stored field values: what `get_metadata()` (attribute
+    AND dict view), `get_content_type()` and `get_bytes().read()` (twice, and for a stored stream that was left at its end) report is what
+    was stored.  Also the native validation of the assumed `ImageMetadata.__post_init__` mirror and of the io.BytesIO / str.strip models."""
+    import dataclasses
+    import io as _io
+    import itertools
+    dt = _imp("sharepoint2text.parsing.extractors.data_types")
+    C = getattr(dt, cls, None)
+    if C is None:
+        return None
+    spec = {"DocxImage": ("image_index", None), "PptxImage": ("image_index", "slide_number"), "XlsxImage": ("image_index", ("sheet_index", 1)),
+            "OpenDocumentImage": ("image_index", "unit_name"), "EpubImage": ("image_index", "unit_index"), "PdfImage": ("index", "unit_name")}.get(cls)
+    if spec is None:
+        return None
+    num, unit = spec
+    flds = {f.name: str(f.type) for f in dataclasses.fields(C)}
+    if num not in flds or "content_type" not in flds:
+        return None
+    pay = [n for n, t in flds.items() if "BytesIO" in t or ("bytes" in t and n != "size_bytes")]
+    pay = pay[0] if len(pay) == 1 else None
+    ufield = unit[0] if isinstance(unit, tuple) else unit
+    opt = lambda n: "Optional" in flds.get(n, "") or "None" in flds.get(n, "")     # noqa: E731
+    odf = "str" in flds.get("width", "")
+    sizes = (["1in", None, "0cm", "abc", "2.54cm", "131px"] if odf else ([None] if opt("width") else []) + [0, -1, 5, 131])
+    units = [None] if ufield is None else (([None] if opt(ufield) else []) + [0, 1, 3])
+    px = getattr(dt, "_odf_length_to_px", None)
+
+    def fail(target, inputs, expected, observed):
+        return {"target": f"{cls}.{target}", "aspect": "accessors", "inputs": {k: repr(v) for k, v in inputs.items()}, "expected": expected, "observed": observed}
+
+    def want_size(v):
+        if odf:
+            v = px(v) if px else None
+        return v if isinstance(v, int) and v > 0 else None
+    for n, u, w, h, ct in itertools.product((1, 7), units, sizes, sizes[::-1], ("image/png", " image/jpeg ")):
+        kw = {num: n, "content_type": ct, "width": w, "height": h}
+        if ufield is not None:
+            kw[ufield] = u
+        kw = {k: v for k, v in kw.items() if k in flds}
+        if meth in (None, "get_metadata"):
+            md = C(**kw).get_metadata()
+            uw = [None, u + unit[1] if u is not None else None] if isinstance(unit, tuple) else [u]
+            for key, ok, exp in (("image_number", md.image_number == n, n), ("content_type", md.content_type in (ct, ct.strip()), ct),
+                                 ("unit_number", md.unit_number in uw, uw), ("width", md.width == want_size(w), want_size(w)),
+                                 ("height", md.height == want_size(h), want_size(h))):
+                if not ok:
+                    return fail("get_metadata()", kw, f"{key} == {exp!r}", f"{key} == {getattr(md, key)!r}")
+                if dict(md).get(key, "<absent>") != getattr(md, key):
+                    return fail("get_metadata()", kw, f"dict view [{key!r}] == attribute {getattr(md, key)!r}", repr(dict(md).get(key, "<absent>")))
+        if meth in (None, "get_content_type"):
+            got = C(**kw).get_content_type()
+            if got not in (ct, ct.strip()):
+                return fail("get_content_type()", kw, repr(ct), repr(got))
+    if meth in (None, "get_bytes") and pay is not None:
+        stream = "BytesIO" in flds[pay]
+        for data in ([None] if opt(pay) else []) + [b"", b"\x89PNG\r\n\x1a\n" + bytes(range(256))]:
+            for pre in ((0, 5, None) if stream and data else (0,)):
+                val = data
+                if stream and data is not None:
+                    val = _io.BytesIO(data)
+                    val.seek(len(data) if pre is None else min(pre, len(data)))
+                img = C(**{num: 1, pay: val})
+                for call in (1, 2):
+                    got = img.get_bytes().read()
+                    if got != (data or b""):
+                        return fail("get_bytes().read()", {pay: data, "stored stream position": pre, "call": call}, f"{len(data or b'')} stored bytes",
+                                    f"{len(got)} bytes" + ("" if len(got) != len(data or b"") else " (different content)"))
     return None
 
 
